@@ -495,6 +495,23 @@ func run(c *lib.Ctx, cs caseT) {
 	}
 	if okc {
 		c.Count("via-convert-checked")
+		viaOK := true
+		defer func() {
+			// ... and the converted values are plain numbers: Compare must agree with their numeric order
+			if !viaOK || kind == "str" {
+				return
+			}
+			for i, p := range pairs[:6] {
+				x, y := observe(conv[p[0]]), observe(conv[p[1]])
+				if x.Z == nil || y.Z == nil {
+					continue
+				}
+				if want := x.rat().Cmp(y.rat()); want != res[i] {
+					fail("compare/"+kind+"/differs-from-numeric-order-of-converted-values", fmt.Sprintf("Compare(%v,%v) = %d but the converted values %v, %v compare %d", vals[p[0]], vals[p[1]], res[i], conv[p[0]], conv[p[1]], want))
+					return
+				}
+			}
+		}()
 		for i, p := range pairs[:6] {
 			r2, err := typ.Compare(context.Background(), conv[p[0]], conv[p[1]])
 			if err != nil || r2 != res[i] {
@@ -515,6 +532,7 @@ func run(c *lib.Ctx, cs caseT) {
 				} else if strings.HasPrefix(cs.Type, "coldecimal(") {
 					shape = "column-decimal"
 				}
+				viaOK = false
 				fail("compare/"+shape+"/differs-after-convert", fmt.Sprintf("Compare(%v,%v) = %d but on converted values (%v,%v) = %d (%v)", vals[p[0]], vals[p[1]], res[i], conv[p[0]], conv[p[1]], r2, err))
 				break
 			}
